@@ -24,6 +24,10 @@ TStep == \/ /\ Ev.op = "write" /\ IF Mode = "contract" THEN WriteCore(Ev.d) /\ A
             /\ UNCHANGED rb
          \/ /\ Ev.op = "reopen" /\ IF Mode = "contract" THEN ReopenCore /\ Adopt ELSE Reopen /\ Same
             /\ UNCHANGED rb
+         \/ /\ Ev.op = "writes" /\ IF Mode = "contract" THEN WriteManyCore(Ev.d, Ev.n) /\ Adopt ELSE WriteManyCore(Ev.d, Ev.n) /\ WriteManyVis(Ev.d, Ev.n) /\ Same
+            /\ UNCHANGED rb
+         \/ /\ Ev.op = "crash" /\ IF Mode = "contract" THEN Adopt /\ CrashCore ELSE Crash /\ Same
+            /\ UNCHANGED rb
          \/ /\ Ev.op = "read" /\ rb' = [done |-> TRUE, rows |-> Ev.rows, values_ok |-> Ev.values_ok, cols_ok |-> Ev.cols_ok]
             /\ UNCHANGED vars
 \* ----- contract invariants on the observed behaviour -----
@@ -35,6 +39,8 @@ CVisibleSchemaOK == On => VisibleSchemaOK
 \* reading the database back with the library's reader: one record per row written, per table, in write
 \* order, with the same values (compared by the driver per the type mapping) and every declared column
 CReadBack == (On /\ rb.done) => (rb.rows = rows /\ rb.values_ok /\ rb.cols_ok)
+\* the death of the writer changes nothing another connection sees: the open transaction goes, whole
+CCrashRollsBack == [][(On /\ l <= Len(Traces[tid]) /\ Ev.op = "crash") => (crows' = crows /\ ccols' = ccols)]_tvars
 AllOK == CVisiblePrefix /\ CAtBoundary /\ CClosedCommitted /\ CVisibleSchemaOK /\ CReadBack
 TNext == /\ l <= Len(Traces[tid]) /\ AllOK
          /\ TStep
